@@ -132,4 +132,5 @@ package main
 //@   property C29
 //@   ensures [parses-the-stored-bytes-verbatim] parseCalls > old(parseCalls) ==> lastParsedText == bs(data) && lastParsedBase == 10
 //@   ensures [at-most-one-parse] parseCalls <= old(parseCalls) + 1
+//@   ensures [every-non-empty-value-reaches-the-parser] len(data) > 0 ==> parseCalls == old(parseCalls) + 1
 //@   ensures [non-zero-only-from-the-parser] parseCalls == old(parseCalls) ==> result == 0 && result1 == nil
